@@ -7,6 +7,10 @@ import Gts.Lemmas.Delete
 import Gts.Lemmas.Table
 import Gts.Model.Seq
 import Gts.Lemmas.Record
+import Gts.Lemmas.MarksOps
+import Gts.Lemmas.MarksCoords
+import Gts.Lemmas.MarkGuardOps
+import Gts.Spec.Read
 namespace Gts.C04
 open Gts Loc
 
@@ -200,5 +204,140 @@ theorem rotate_feature_partial (s : Gts.Seq) (n : Int) (hL : 0 < s.len) (f : Fea
 /-- nothing is lost or added -/
 theorem rotate_feature_count (s : Gts.Seq) (n : Int) : (s.rotate n).feats.length = s.feats.length := by
   simpa using (rotate_table_perm s n).length_eq
+
+/-! ### partial markers stay on the outer ends; all coordinates lie in `[0, L]`
+
+`outerMarks` / `coordsWithin` (`Gts/Spec/Marks.lean`) are the Lean restatements of the Go
+oracles `harness/spec.go outerMarks`, `coordsWithin`. -/
+
+/-- FULL STATEMENT for the markers (false on the model, and on the code): "rotating leaves the
+outer 5'/3' markers of every well-formed location with non-negative coordinates unchanged".
+Witness `join(4,<4..6)` (a literal that `Join` would reduce), rotation by 0 on length 10: both
+steps rebuild the join, `Push` replaces the point by the range that starts at it, and `<4..6`
+has a 5' marker where the unmarked point was. -/
+theorem rotate_marks_full_refuted :
+    ¬ (∀ (l : Loc) (n L : Int), 0 < L → 0 ≤ n → wf l = true → nonneg l = true →
+        outerMarks (normalize (expand l 0 n) L) = outerMarks l) := by
+  intro h
+  have := h (joined [point 3, ranged 3 6 true false]) 0 10 (by decide) (by decide) (by decide) (by decide)
+  revert this
+  decide
+
+/-- **Normalize keeps the partial markers on the same outer ends**: every kind and arity, also a
+range that is split at the origin (`join(‹p5›[s,L), [0,e)‹p3›)`) and a full-length range (re-based
+to `[0, L)`); ambiguous spans may cross the origin (they carry no marker).  Guard: no
+marker-moving rule of `Push` fires (`normalizeMarkAbs`, `Gts/Spec/MarkGuard.lean`). -/
+theorem normalize_marks_partial (l : Loc) (L : Int) (hL : 0 < L) (hw : wf l = true)
+    (hnn : nonneg l = true) (hg : normalizeMarkAbs l L = false) :
+    outerMarks (normalize l L) = outerMarks l :=
+  outerMarks_of_marks ((normalize_marks_aux l L hL (rwf_of_wf l hw) hnn).1 hg)
+
+/-- **Rotate keeps the partial markers on the same outer ends**: the two steps of `gts.Rotate`
+on a location (`Expand(0, n)` then `Normalize(L)`), for every well-formed location with
+non-negative coordinates, every `0 ≤ n` and `0 < L` — no `normOk` restriction: full-length parts
+and origin-crossing ambiguous spans included.  Guards: no marker-moving rule of `Push` fires in
+either step. -/
+theorem rotate_marks_partial (l : Loc) (n L : Int) (hL : 0 < L) (hn : 0 ≤ n)
+    (hw : wf l = true) (hnn : nonneg l = true)
+    (h1 : expandMarkAbs l 0 n = false) (h2 : normalizeMarkAbs (expand l 0 n) L = false) :
+    outerMarks (normalize (expand l 0 n) L) = outerMarks l := by
+  have wfe : wf (expand l 0 n) = true := (expand_ins l 0 n hw hn).2
+  have nne : nonneg (expand l 0 n) = true := expand0_nonneg' l n hn hw hnn
+  rw [normalize_marks_partial (expand l 0 n) L hL wfe nne h2]
+  exact outerMarks_of_marks (expand_ins_marks_aux l 0 n hw hn h1)
+
+/-- … in particular under the hypotheses of `rotate_den_partial` plus duplicate-freeness and
+positions inside the sequence — the conditions under which the Go oracle evaluates the clause -/
+theorem rotate_marks_nodup_partial (l : Loc) (n L : Int) (hL : 0 < L) (hn : 0 ≤ n)
+    (hw : wf l = true) (hnn : nonneg l = true)
+    (hok : normOk L (expand l 0 n) = true)
+    (h1 : expandAbs l 0 n = false) (h2 : normalizeAbs (expand l 0 n) L = false)
+    (hin : denIn L (den l)) (hnd : (den l).Nodup) :
+    outerMarks (normalize (expand l 0 n) L) = outerMarks l := by
+  have a := guest_translate l n hw hnn hn h1
+  have wfe : wf (expand l 0 n) = true := (expand_ins l 0 n hw hn).2
+  have c := mapPos_refines (· % L) a
+  have e : mapPos (· % L) (mapPos (· + n) (den l)) = mapPos (rotMap n L) (den l) := by
+    simp [mapPos, rotMap, Function.comp_def]
+  rw [e] at c
+  have hnd2 : (mapPos (· % L) (den (expand l 0 n))).Nodup :=
+    Refines.nodup c (nodup_mapPos_rotMap n L hL _ hin hnd)
+  exact rotate_marks_partial l n L hL hn hw hnn
+    (expand0MarkAbs_of_nodup l n hw hnn hn h1 hnd)
+    (normalizeMarkAbs_of_nodup (expand l 0 n) L hL wfe hok h2 hnd2)
+
+/-- FULL STATEMENT for the coordinates without the property's proviso on ambiguous spans (false
+on the model, and on the code): `one-of(4.5)` on a circle of length 5 rotated by 1 becomes
+`Ambiguous{4, 1}` — `Start > End`.  The property text excludes ambiguous spans that cross the
+new origin; `ambOk` below is exactly that proviso. -/
+theorem rotate_coords_full_refuted :
+    ¬ (∀ (l : Loc) (n L : Int), 0 < L → 0 ≤ n → wf l = true → coordsWithin l L = true →
+        coordsWithin (normalize (expand l 0 n) L) L = true) := by
+  intro h
+  have := h (ambiguous 3 5) 1 5 (by decide) (by decide) (by decide) (by decide)
+  revert this
+  decide
+
+/-- a location inside `[0, L]` has non-negative coordinates (so `coordsWithin l L` discharges
+the hypothesis `nonneg l` of the theorems of this file) -/
+theorem coordsWithin_nonneg (l : Loc) (L : Int) (h : coordsWithin l L = true) : nonneg l = true :=
+  nonneg_of_coordsWithin l L h
+
+/-- **all coordinates lie in `[0, L]` after Rotate**: for every well-formed location with
+non-negative coordinates (in particular: `coordsWithin l L`), every `0 ≤ n` (in particular the
+reduced `n mod L` that `gts.Rotate` uses, see `rotN_eq_emod`) and `0 < L`, every leaf of
+`Normalize(Expand(l, 0, n), L)` has `0 ≤ start ≤ end ≤ L` — provided no ambiguous span crosses the
+new origin (`ambOk`, the property's own proviso).  No K2 / marker guard: `Join` only copies or
+merges leaves. -/
+theorem rotate_coords (l : Loc) (n L : Int) (hL : 0 < L) (hn : 0 ≤ n)
+    (hw : wf l = true) (hnn : nonneg l = true) (ha : ambOk L (expand l 0 n) = true) :
+    coordsWithin (normalize (expand l 0 n) L) L = true :=
+  normalize_coordsWithin (expand l 0 n) L hL (expand_ins l 0 n hw hn).2
+    (expand0_nonneg' l n hn hw hnn) ha
+
+/-- non-vacuity: a complement-strand join that crosses the new origin, with both outer markers;
+its rotated form keeps them and lies inside `[0, 10]` -/
+example : wf (compl (joined [ranged 1 3 true false, ranged 6 9 false true])) = true ∧
+    nonneg (compl (joined [ranged 1 3 true false, ranged 6 9 false true])) = true ∧
+    coordsWithin (compl (joined [ranged 1 3 true false, ranged 6 9 false true])) 10 = true ∧
+    expandMarkAbs (compl (joined [ranged 1 3 true false, ranged 6 9 false true])) 0 3 = false ∧
+    normalizeMarkAbs (expand (compl (joined [ranged 1 3 true false, ranged 6 9 false true])) 0 3) 10 = false ∧
+    ambOk 10 (expand (compl (joined [ranged 1 3 true false, ranged 6 9 false true])) 0 3) = true ∧
+    outerMarks (compl (joined [ranged 1 3 true false, ranged 6 9 false true])) = (true, true) ∧
+    normOk 10 (expand (compl (joined [ranged 1 3 true false, ranged 6 9 false true])) 0 3) = true ∧
+    expandAbs (compl (joined [ranged 1 3 true false, ranged 6 9 false true])) 0 3 = false ∧
+    normalizeAbs (expand (compl (joined [ranged 1 3 true false, ranged 6 9 false true])) 0 3) 10 = false ∧
+    denIn 10 (den (compl (joined [ranged 1 3 true false, ranged 6 9 false true]))) ∧
+    (den (compl (joined [ranged 1 3 true false, ranged 6 9 false true]))).Nodup ∧
+    (normalize (expand (compl (joined [ranged 1 3 true false, ranged 6 9 false true])) 0 3) 10).beq
+      (compl (joined [ranged 4 6 true false, ranged 9 10 false false, ranged 0 2 false true])) = true := by
+  decide
+
+/-- **Rotate, record level (markers)**: for every `n` (any sign and magnitude) every feature of
+a non-empty record is present in the rotated record with unchanged key and qualifiers and the
+same outer partial markers. -/
+theorem rotate_feature_marks_partial (s : Gts.Seq) (n : Int) (hL : 0 < s.len) (f : Feature)
+    (hf : f ∈ s.feats) (hw : wf f.loc = true) (hnn : nonneg f.loc = true)
+    (h1 : expandMarkAbs f.loc 0 (rotN n s.len) = false)
+    (h2 : normalizeMarkAbs (expand f.loc 0 (rotN n s.len)) s.len = false) :
+    ∃ f' ∈ (s.rotate n).feats, f'.key = f.key ∧ f'.props = f.props ∧
+      outerMarks f'.loc = outerMarks f.loc := by
+  refine ⟨{ f with loc := (f.loc.expand 0 (rotN n s.len)).normalize s.len },
+    mem_of_perm_map (rotate_table_perm s n) hf, rfl, rfl, ?_⟩
+  have hr : 0 ≤ rotN n s.len := by rw [rotN_eq_emod n s.len hL]; exact Int.emod_nonneg _ (by omega)
+  exact rotate_marks_partial f.loc (rotN n s.len) s.len hL hr hw hnn h1 h2
+
+/-- **Rotate, record level (coordinates)**: every feature of the rotated record that stems from
+a well-formed feature with non-negative coordinates and no ambiguous span across the new origin
+has all its coordinates in `[0, L]`. -/
+theorem rotate_feature_coords (s : Gts.Seq) (n : Int) (hL : 0 < s.len) (f : Feature)
+    (hf : f ∈ s.feats) (hw : wf f.loc = true) (hnn : nonneg f.loc = true)
+    (ha : ambOk s.len (expand f.loc 0 (rotN n s.len)) = true) :
+    ∃ f' ∈ (s.rotate n).feats, f'.key = f.key ∧ f'.props = f.props ∧
+      coordsWithin f'.loc s.len = true := by
+  refine ⟨{ f with loc := (f.loc.expand 0 (rotN n s.len)).normalize s.len },
+    mem_of_perm_map (rotate_table_perm s n) hf, rfl, rfl, ?_⟩
+  have hr : 0 ≤ rotN n s.len := by rw [rotN_eq_emod n s.len hL]; exact Int.emod_nonneg _ (by omega)
+  exact rotate_coords f.loc (rotN n s.len) s.len hL hr hw hnn ha
 
 end Gts.C04
